@@ -71,6 +71,7 @@ class Capture:
         self.bc_in = None             # [(id, flag, parts)] of the MCNP surface dictionary
         self.inline_in = None         # (max score, [(id, universe, geom sexp)]) before inline_cells
         self.inline_out = None        # [(id, geom sexp)] after
+        self.lattices = []            # one dict per develop_lattice call: inputs and the cells it created
         self.error = None
 
 
@@ -187,6 +188,59 @@ def convert_capture(deck_text, args=()):
             return res
         return inline_cells
 
+    def mk_lat(orig):
+        def develop_lattice(self, key):
+            rec = None
+            try:
+                cell = self.dic_cell_mcnp[key]
+                if cell.lattice is not None:
+                    from t4_geom_convert.Kernel.Volume.Lattice import squareLatticeBaseVectors, hexLatticeBaseVectors
+                    surfaces = self.extract_surfaces(cell)
+                    try:
+                        base = (squareLatticeBaseVectors if cell.lattice == 1 else hexLatticeBaseVectors)(surfaces)
+                        base = [[float(x) for x in v] for v in base]
+                    except Exception:  # noqa
+                        base = None
+                    dom = cell.fillid
+                    rec = dict(key=int(key), kind=int(cell.lattice), base=base,
+                               bounds=[(int(a), int(b)) for a, b in dom.bounds],
+                               spec=[int(u) for u in dom.spec], univ=int(cell.universe),
+                               filltr=[float(x) for x in cell.filltr] if cell.filltr else None,
+                               trcl=[[float(x) for x in t] for t in (cell.trcl or [])], elements=[], error=None)
+                    orig_ct = self.cell_transform
+
+                    def ct(cell_key, transform, cache=True):
+                        nk = orig_ct(cell_key, transform, cache=cache)
+                        if cell_key == key and cache is False:
+                            rec['elements'].append((int(nk), [float(x) for x in transform[:3]]))
+                        return nk
+                    self.cell_transform = ct
+            except Exception as e:  # noqa
+                cap.error = 'lattice-capture: %r' % (e,)
+                rec = None
+            try:
+                return orig(self, key)
+            except Exception as e:
+                if rec is not None:
+                    rec['error'] = type(e).__name__
+                raise
+            finally:
+                if rec is not None:
+                    try:
+                        del self.cell_transform
+                    except Exception:  # noqa
+                        pass
+                    out = []
+                    for nk, tr in rec['elements']:
+                        c = self.dic_cell_mcnp.get(nk)
+                        if c is None:
+                            continue
+                        out.append(dict(transl=tr, fill=None if c.fillid is None else int(c.fillid),
+                                        filltr=[float(x) for x in (c.filltr or [])]))
+                    rec['elements'] = out
+                    cap.lattices.append(rec)
+        return develop_lattice
+
     import t4_geom_convert.Kernel.Volume.ConstructVolumeT4 as CVT
     patch(CVT, 'inline_cells', mk_inline)
 
@@ -194,6 +248,7 @@ def convert_capture(deck_text, args=()):
     if cls is None:
         cap.missing.append('CellConversion')
     else:
+        patch(cls, 'develop_lattice', mk_lat)
         patch(cls, 'pot_complement', mk_compl)
         patch(cls, 'pot_convert', mk_conv)
     patch(WG, 'construct_volume_t4', mk_cv)
@@ -232,6 +287,18 @@ def struct_vol_sexp(k, v):
     return '(vol %d (p %s) (m %s)%s (o %s) %s)' % (
         k, ' '.join(map(str, pl)), ' '.join(map(str, mi)), o, ' '.join('(%d %d)' % p for p in origin),
         'F' if fict else 'R')
+
+
+def lattice_request(rec):
+    f = lambda xs: ' '.join(repr(float(x)) for x in xs)  # noqa
+    parts = ['(base %s)' % ' '.join('(v %s)' % f(v) for v in rec['base']),
+             '(bounds %s)' % ' '.join('(r %d %d)' % b for b in rec['bounds']),
+             '(spec %s)' % ' '.join(str(u) for u in rec['spec']), '(univ %d)' % rec['univ']]
+    if rec['filltr']:
+        parts.append('(filltr %s)' % f(rec['filltr']))
+    if rec['trcl']:
+        parts.append('(trcl %s)' % f(rec['trcl'][0]))
+    return '(lat %s)' % ' '.join(parts)
 
 
 def inline_request(cap):
